@@ -5,6 +5,18 @@
 //! buffer form that `ir::layout_checker::check_layout` visits. The real checker is run (directly after the real
 //! preprocess/parse/type_check, and for a subset through `rssl::compile(.. validate_layout_consistency(true))`).
 //!
+//! Input dimensions besides the member list:
+//!  * form = use x site (100 forms). use: (RW)StructuredBuffer<S> global, or one overload of the typed raw-buffer /
+//!    buffer-address intrinsics (every `T` row of rssl's intrinsic tables, the `Load<T>(offset, out status)` overloads
+//!    included). site: how the use is written (free function, struct method, buffer as parameter, local copy, nested
+//!    control flow, function template instantiated with S, typedef, `const S`, element of an array of raw buffers,
+//!    const / namespaced / indexed structured buffer).
+//!  * declaration (`Inh`): the member list of the element struct and of the structs nested in it is cut, after any
+//!    subset of its members, into a chain of derived structs `struct S0b0 {..}; struct S0 : S0b0 {..};`. The memory
+//!    order (base members first) is the order of the member list, so the reference layouts do not depend on it.
+//!  * two uses in one program (`check_pair`): a consistent and an inconsistent struct in either order, or one struct
+//!    used twice, over every pair of plainly written uses and every form next to every plain use.
+//!
 //! Oracle: two independent, deliberately boring layout calculators (`hlsl_rules`, `metal_rules`).
 //!  * validation accepts  => total size and the byte offset of every field (recursively, array elements included)
 //!    must be equal in both calculators, else `layout|accepted|<class of the first differing thing>`;
@@ -19,8 +31,14 @@
 //!  layout|accepted|nested-struct-tail-padding  ... by the tail padding of a preceding nested struct
 //!  layout|accepted|array-stride-vec3 / array-stride-struct   element k>=1 of an array member is at a different offset
 //!  layout|accepted|total-size|<why>            all field offsets agree, the total size does not
-//!  layout|accepted|form-not-validated|<form>   the buffer form is not visited by the checker at all
+//!  layout|accepted|form-not-validated|<use>[ @ <site>]   the form is not visited by the checker at all (the site is
+//!                                              only named when the same use written plainly is validated)
+//!  layout|accepted|derived-struct              an inconsistent struct declared with base structs is accepted although
+//!                                              the same member list declared flat is not
+//!  layout|accepted|two-uses|<first-struct|second-struct|same-struct>-not-validated
 //!  layout|rejected|reported-size-wrong|hlsl / |metal
+//!  layout|rejected|reported-size-wrong|derived-struct|hlsl / |metal   ... and the flat declaration gets another verdict
+//!  layout|rejected|reported-size-wrong|two-uses   the reported sizes are the true sizes of neither struct
 //!  harness|generated-program-rejected, harness|e2e-verdict-differs   machinery cross-checks
 //!
 //! The class names describe the first thing that differs between the two *reference* layouts, not rssl's internal
@@ -170,15 +188,25 @@ fn parse_ty_at(b: &[char], p: &mut usize) -> Option<Ty> {
 }
 
 // ---------------------------------------------------------------------------------------------
-// buffer forms: exactly the uses that check_layout visits (globals of type (RW)StructuredBuffer<S>, and the
-// template instantiations of the typed Load / Store intrinsics of (RW)ByteAddressBuffer and (RW)BufferAddress)
+// buffer forms = use x site.
+//  use : what makes the struct a buffer element type: a global of type (RW)StructuredBuffer<S>, or one *overload* of the
+//        typed Load / Store intrinsics of (RW)ByteAddressBuffer and (RW)BufferAddress (every row of rssl's intrinsic
+//        tables that has a `T` in it, including the `Load<T>(offset, out status)` overloads);
+//  site: where / how that use is written (free function, struct method, buffer passed as a parameter, local copy of
+//        the buffer, inside nested control flow, inside a function template instantiated with S, through a typedef,
+//        const-qualified element type, element of an array of raw buffers, const-qualified / namespaced / indexed
+//        structured buffer).
+// Arrays of structured buffers, structured buffers as function parameters and as struct members are outside the space
+// (see `rep.assumptions`).
 
 #[derive(Clone, Copy, PartialEq, Eq, Hash, Debug)]
-pub enum Form {
+pub enum Use {
     Sb,
     RwSb,
     BabLoad,
+    BabLoadStatus,
     RwBabLoad,
+    RwBabLoadStatus,
     RwBabStore,
     RwBabStoreT,
     BaLoad,
@@ -187,86 +215,365 @@ pub enum Form {
     RwBaStoreT,
 }
 
-pub const FORMS: [Form; 10] = [
-    Form::Sb,
-    Form::RwSb,
-    Form::BabLoad,
-    Form::RwBabLoad,
-    Form::RwBabStore,
-    Form::RwBabStoreT,
-    Form::BaLoad,
-    Form::RwBaLoad,
-    Form::RwBaStore,
-    Form::RwBaStoreT,
+pub const USES: [Use; 12] = [
+    Use::Sb,
+    Use::RwSb,
+    Use::BabLoad,
+    Use::RwBabLoad,
+    Use::RwBabStore,
+    Use::RwBabStoreT,
+    Use::BaLoad,
+    Use::RwBaLoad,
+    Use::RwBaStore,
+    Use::RwBaStoreT,
+    Use::BabLoadStatus,
+    Use::RwBabLoadStatus,
 ];
 
-impl Form {
+impl Use {
     pub fn name(self) -> &'static str {
         match self {
-            Form::Sb => "StructuredBuffer<S>",
-            Form::RwSb => "RWStructuredBuffer<S>",
-            Form::BabLoad => "ByteAddressBuffer.Load<S>",
-            Form::RwBabLoad => "RWByteAddressBuffer.Load<S>",
-            Form::RwBabStore => "RWByteAddressBuffer.Store(0,s)",
-            Form::RwBabStoreT => "RWByteAddressBuffer.Store<S>",
-            Form::BaLoad => "BufferAddress.Load<S>",
-            Form::RwBaLoad => "RWBufferAddress.Load<S>",
-            Form::RwBaStore => "RWBufferAddress.Store(0,s)",
-            Form::RwBaStoreT => "RWBufferAddress.Store<S>",
+            Use::Sb => "StructuredBuffer<S>",
+            Use::RwSb => "RWStructuredBuffer<S>",
+            Use::BabLoad => "ByteAddressBuffer.Load<S>",
+            Use::BabLoadStatus => "ByteAddressBuffer.Load<S>(0,status)",
+            Use::RwBabLoad => "RWByteAddressBuffer.Load<S>",
+            Use::RwBabLoadStatus => "RWByteAddressBuffer.Load<S>(0,status)",
+            Use::RwBabStore => "RWByteAddressBuffer.Store(0,s)",
+            Use::RwBabStoreT => "RWByteAddressBuffer.Store<S>",
+            Use::BaLoad => "BufferAddress.Load<S>",
+            Use::RwBaLoad => "RWBufferAddress.Load<S>",
+            Use::RwBaStore => "RWBufferAddress.Store(0,s)",
+            Use::RwBaStoreT => "RWBufferAddress.Store<S>",
         }
     }
+    fn structured(self) -> bool {
+        matches!(self, Use::Sb | Use::RwSb)
+    }
+    /// (buffer type, register class)
+    fn buffer(self) -> (&'static str, char) {
+        match self {
+            Use::Sb => ("StructuredBuffer", 't'),
+            Use::RwSb => ("RWStructuredBuffer", 'u'),
+            Use::BabLoad | Use::BabLoadStatus => ("ByteAddressBuffer", 't'),
+            Use::RwBabLoad | Use::RwBabLoadStatus | Use::RwBabStore | Use::RwBabStoreT => ("RWByteAddressBuffer", 'u'),
+            Use::BaLoad => ("BufferAddress", 't'),
+            Use::RwBaLoad | Use::RwBaStore | Use::RwBaStoreT => ("RWBufferAddress", 'u'),
+        }
+    }
+    fn is_store(self) -> bool {
+        matches!(self, Use::RwBabStore | Use::RwBabStoreT | Use::RwBaStore | Use::RwBaStoreT)
+    }
+    fn explicit_t(self) -> bool {
+        !matches!(self, Use::RwBabStore | Use::RwBaStore)
+    }
+    fn status(self) -> bool {
+        matches!(self, Use::BabLoadStatus | Use::RwBabLoadStatus)
+    }
+}
+
+#[derive(Clone, Copy, PartialEq, Eq, Hash, Debug)]
+pub enum Site {
+    Plain,
+    Method,
+    Param,
+    Local,
+    Nested,
+    Template,
+    Alias,
+    ConstElem,
+    ArrayElem,
+    ConstBuf,
+    Namespace,
+    Indexed,
+}
+
+pub const SITES: [Site; 12] = [
+    Site::Plain,
+    Site::Method,
+    Site::Param,
+    Site::Local,
+    Site::Nested,
+    Site::Template,
+    Site::Alias,
+    Site::ConstElem,
+    Site::ArrayElem,
+    Site::ConstBuf,
+    Site::Namespace,
+    Site::Indexed,
+];
+
+impl Site {
+    pub fn name(self) -> &'static str {
+        match self {
+            Site::Plain => "",
+            Site::Method => "in a struct method",
+            Site::Param => "buffer is a function parameter",
+            Site::Local => "through a local copy of the buffer",
+            Site::Nested => "inside if/for",
+            Site::Template => "inside a function template instantiated with S",
+            Site::Alias => "through typedef S T",
+            Site::ConstElem => "element type const S",
+            Site::ArrayElem => "element of an array of buffers",
+            Site::ConstBuf => "const-qualified buffer",
+            Site::Namespace => "buffer declared in a namespace",
+            Site::Indexed => "buffer indexed in a function",
+        }
+    }
+    fn applies(self, u: Use) -> bool {
+        match self {
+            Site::Plain | Site::Alias => true,
+            Site::Method | Site::Param | Site::Local | Site::Nested | Site::Template | Site::ArrayElem => !u.structured(),
+            // `Store(0, s)` has no written element type to qualify
+            Site::ConstElem => u.explicit_t(),
+            Site::ConstBuf | Site::Namespace | Site::Indexed => u.structured(),
+        }
+    }
+}
+
+#[derive(Clone, Copy, PartialEq, Eq, Hash, Debug)]
+pub struct Form {
+    pub use_: Use,
+    pub site: Site,
+}
+
+/// all forms, simplest first: the 12 uses written plainly, then every other applicable (site, use)
+pub fn all_forms() -> Vec<Form> {
+    let mut v = Vec::new();
+    for site in SITES {
+        for use_ in USES {
+            if site.applies(use_) {
+                v.push(Form { use_, site });
+            }
+        }
+    }
+    v
+}
+
+pub const PLAIN_FORMS: usize = 12;
+
+impl Form {
+    pub fn name(self) -> String {
+        if self.site == Site::Plain { self.use_.name().to_string() } else { format!("{} @ {}", self.use_.name(), self.site.name()) }
+    }
     pub fn from_name(s: &str) -> Option<Form> {
-        FORMS.iter().copied().find(|f| f.name() == s)
+        all_forms().into_iter().find(|f| f.name() == s)
     }
     fn index(self) -> usize {
-        FORMS.iter().position(|f| *f == self).unwrap()
+        SITES.iter().position(|s| *s == self.site).unwrap() * USES.len() + USES.iter().position(|u| *u == self.use_).unwrap()
     }
-    fn tail(self, s: &str) -> String {
-        match self {
-            Form::Sb => format!("StructuredBuffer<{s}> g_b : register(t0);\n"),
-            Form::RwSb => format!("RWStructuredBuffer<{s}> g_b : register(u0);\n"),
-            Form::BabLoad => format!("ByteAddressBuffer g_b : register(t0);\nvoid f() {{ {s} s = g_b.Load<{s}>(0); }}\n"),
-            Form::RwBabLoad => format!("RWByteAddressBuffer g_b : register(u0);\nvoid f() {{ {s} s = g_b.Load<{s}>(0); }}\n"),
-            Form::RwBabStore => format!("RWByteAddressBuffer g_b : register(u0);\nvoid f({s} s) {{ g_b.Store(0, s); }}\n"),
-            Form::RwBabStoreT => format!("RWByteAddressBuffer g_b : register(u0);\nvoid f({s} s) {{ g_b.Store<{s}>(0, s); }}\n"),
-            Form::BaLoad => format!("BufferAddress g_b : register(t0);\nvoid f() {{ {s} s = g_b.Load<{s}>(0); }}\n"),
-            Form::RwBaLoad => format!("RWBufferAddress g_b : register(u0);\nvoid f() {{ {s} s = g_b.Load<{s}>(0); }}\n"),
-            Form::RwBaStore => format!("RWBufferAddress g_b : register(u0);\nvoid f({s} s) {{ g_b.Store(0, s); }}\n"),
-            Form::RwBaStoreT => format!("RWBufferAddress g_b : register(u0);\nvoid f({s} s) {{ g_b.Store<{s}>(0, s); }}\n"),
+    /// the declarations that use struct `s` in this form; `tag` keeps the names of two forms in one program apart
+    fn tail(self, s: &str, tag: &str) -> String {
+        let u = self.use_;
+        let (bt, rc) = u.buffer();
+        let slot = if tag.is_empty() { "0" } else { tag };
+        let g = format!("g_b{tag}");
+        let mut out = String::new();
+        // the spelling of the element type at the use
+        let sn = match self.site {
+            Site::Alias => {
+                out.push_str(&format!("typedef {s} T{tag};\n"));
+                format!("T{tag}")
+            }
+            Site::ConstElem => format!("const {s}"),
+            _ => s.to_string(),
+        };
+        if u.structured() {
+            let decl = format!("{bt}<{sn}> {g} : register({rc}{slot});\n");
+            match self.site {
+                Site::ConstBuf => out.push_str(&format!("const {decl}")),
+                Site::Namespace => out.push_str(&format!("namespace N{tag} {{ {decl}}}\n")),
+                Site::Indexed => {
+                    out.push_str(&decl);
+                    if u == Use::Sb {
+                        out.push_str(&format!("void f{tag}() {{ {s} s = {g}[0]; }}\n"));
+                    } else {
+                        out.push_str(&format!("void f{tag}({s} s) {{ {g}[0] = s; }}\n"));
+                    }
+                }
+                _ => out.push_str(&decl),
+            }
+            return out;
+        }
+        let status = if u.status() { ", st" } else { "" };
+        let pre = if u.status() { "uint st; " } else { "" };
+        let stmt = |b: &str, t: &str| -> String {
+            if u.is_store() {
+                if u.explicit_t() { format!("{b}.Store<{t}>(0, s);") } else { format!("{b}.Store(0, s);") }
+            } else {
+                format!("{t} s = {b}.Load<{t}>(0{status});")
+            }
+        };
+        let param = if u.is_store() { format!("{sn} s") } else { String::new() };
+        let comma_param = if u.is_store() { format!(", {sn} s") } else { String::new() };
+        let global = format!("{bt} {g} : register({rc}{slot});\n");
+        match self.site {
+            Site::Plain | Site::Alias | Site::ConstElem => {
+                out.push_str(&global);
+                out.push_str(&format!("void f{tag}({param}) {{ {pre}{} }}\n", stmt(&g, &sn)));
+            }
+            Site::Method => {
+                out.push_str(&global);
+                out.push_str(&format!("struct M{tag} {{ void g({param}) {{ {pre}{} }} }};\n", stmt(&g, &sn)));
+            }
+            Site::Param => {
+                out.push_str(&format!("void f{tag}({bt} b{comma_param}) {{ {pre}{} }}\n", stmt("b", &sn)));
+            }
+            Site::Local => {
+                out.push_str(&global);
+                out.push_str(&format!("void f{tag}({param}) {{ {bt} l = {g}; {pre}{} }}\n", stmt("l", &sn)));
+            }
+            Site::Nested => {
+                out.push_str(&global);
+                out.push_str(&format!(
+                    "void f{tag}(uint x{comma_param}) {{ {pre}if (x > 0) {{ for (uint i = 0; i < x; ++i) {{ {} }} }} }}\n",
+                    stmt(&g, &sn)
+                ));
+            }
+            Site::Template => {
+                if u.is_store() {
+                    let call = if u.explicit_t() { "b.Store<T>(0, v);" } else { "b.Store(0, v);" };
+                    out.push_str(&format!("template<typename T> void st{tag}({bt} b, T v) {{ {call} }}\n"));
+                    out.push_str(&global);
+                    out.push_str(&format!("void f{tag}({s} s) {{ st{tag}({g}, s); }}\n"));
+                } else {
+                    out.push_str(&format!("template<typename T> T ld{tag}({bt} b) {{ {pre}return b.Load<T>(0{status}); }}\n"));
+                    out.push_str(&global);
+                    out.push_str(&format!("void f{tag}() {{ {s} s = ld{tag}<{s}>({g}); }}\n"));
+                }
+            }
+            Site::ArrayElem => {
+                out.push_str(&format!("{bt} {g}[2] : register({rc}{slot});\n"));
+                out.push_str(&format!("void f{tag}({param}) {{ {pre}{} }}\n", stmt(&format!("{g}[1]"), &sn)));
+            }
+            Site::ConstBuf | Site::Namespace | Site::Indexed => unreachable!(),
+        }
+        out
+    }
+}
+
+// ---------------------------------------------------------------------------------------------
+// how the structs are declared: flat, or as a chain of derived structs. A struct `S : B` is, for rssl (the typer copies
+// the members of the base into the derived struct, the exporters emit the flat member list) and for HLSL, the flat
+// struct "members of B, then the own members". The memory order is therefore always the order of `Ty::Struct`; `Inh`
+// only chooses after which members the declaration is cut into base structs. Bit i set = members 0..=i live in a base
+// of the struct that declares member i+1 (bit n-1 of a struct with n members: the most derived struct has an empty
+// body). `top` applies to the buffer element struct itself, `inner` to every struct nested in it.
+
+#[derive(Clone, Copy, PartialEq, Eq, Hash, Debug, Default)]
+pub struct Inh {
+    pub top: u8,
+    pub inner: u8,
+}
+
+impl Inh {
+    pub const FLAT: Inh = Inh { top: 0, inner: 0 };
+    fn is_flat(self) -> bool {
+        self == Inh::FLAT
+    }
+    fn spec(self) -> String {
+        format!("{},{}", self.top, self.inner)
+    }
+    fn parse(s: &str) -> Option<Inh> {
+        let (a, b) = s.trim().split_once(',')?;
+        Some(Inh { top: a.trim().parse().ok()?, inner: b.trim().parse().ok()? })
+    }
+    /// every set bit cuts a struct of `ty` (so that no two enumerated masks declare the same program)
+    fn canonical(self, ty: &Ty) -> bool {
+        fn max_nested(ty: &Ty, depth: usize) -> usize {
+            match ty {
+                Ty::Struct(ms) => ms.iter().map(|m| max_nested(m, depth + 1)).max().unwrap_or(0).max(if depth > 0 { ms.len() } else { 0 }),
+                Ty::Array(e, _) => max_nested(e, depth),
+                _ => 0,
+            }
+        }
+        let n_top = match ty {
+            Ty::Struct(ms) => ms.len(),
+            _ => 0,
+        };
+        (self.top as u32) >> n_top == 0 && (self.inner as u32) >> max_nested(ty, 0) == 0
+    }
+    /// does any struct of `ty` really get a base with these masks
+    fn effective(self, ty: &Ty, depth: usize) -> bool {
+        match ty {
+            Ty::Struct(ms) => {
+                let mask = if depth == 0 { self.top } else { self.inner } as u32;
+                (mask & ((1u32 << ms.len()) - 1)) != 0 || ms.iter().any(|m| self.effective(m, depth + 1))
+            }
+            Ty::Array(e, _) => self.effective(e, depth),
+            _ => false,
         }
     }
 }
 
 /// (type name, array suffix); struct definitions are appended to `out` innermost first
-fn declare(ty: &Ty, out: &mut String, counter: &mut u32) -> (String, String) {
+fn declare(ty: &Ty, out: &mut String, counter: &mut u32, inh: Inh, depth: usize) -> (String, String) {
     match ty {
         Ty::Leaf(..) | Ty::Mat(..) | Ty::Enum => (ty.expr(), String::new()),
         Ty::Struct(ms) => {
-            let mut body = String::new();
+            let mut decls = Vec::new();
             for (i, m) in ms.iter().enumerate() {
-                let (tn, suf) = declare(m, out, counter);
-                body.push_str(&format!("    {} m{}{};\n", tn, i, suf));
+                let (tn, suf) = declare(m, out, counter, inh, depth + 1);
+                decls.push(format!("    {} m{}{};\n", tn, i, suf));
             }
             let name = format!("S{}", *counter);
             *counter += 1;
-            out.push_str(&format!("struct {}\n{{\n{}}};\n", name, body));
+            let mask = if depth == 0 { inh.top } else { inh.inner } as u32;
+            // cut the member list into the bodies of a chain of structs
+            let mut body = String::new();
+            let mut base: Option<String> = None;
+            let mut nbase = 0;
+            for (i, d) in decls.iter().enumerate() {
+                body.push_str(d);
+                if mask & (1 << i) != 0 {
+                    let bname = format!("{}b{}", name, nbase);
+                    nbase += 1;
+                    match &base {
+                        None => out.push_str(&format!("struct {}\n{{\n{}}};\n", bname, body)),
+                        Some(b) => out.push_str(&format!("struct {} : {}\n{{\n{}}};\n", bname, b, body)),
+                    }
+                    base = Some(bname);
+                    body.clear();
+                }
+            }
+            match &base {
+                None => out.push_str(&format!("struct {}\n{{\n{}}};\n", name, body)),
+                Some(b) => out.push_str(&format!("struct {} : {}\n{{\n{}}};\n", name, b, body)),
+            }
             (name, String::new())
         }
         Ty::Array(e, n) => {
-            let (tn, suf) = declare(e, out, counter);
+            let (tn, suf) = declare(e, out, counter, inh, depth);
             (tn, format!("[{}]{}", n, suf))
         }
     }
 }
 
-pub fn render(top: &Ty, form: Form) -> String {
+pub fn render(top: &Ty, form: Form, inh: Inh) -> String {
     let mut out = String::new();
     if top.has_enum() {
         out.push_str("enum E { A, B };\n");
     }
     let mut counter = 0;
-    let (name, _) = declare(top, &mut out, &mut counter);
-    out.push_str(&form.tail(&name));
+    let (name, _) = declare(top, &mut out, &mut counter, inh, 0);
+    out.push_str(&form.tail(&name, ""));
+    out
+}
+
+/// two uses in one program: `a` in form `fa`, then `b` in form `fb` (`b` = None: the same struct is used twice)
+pub fn render_pair(a: &Ty, fa: Form, b: Option<&Ty>, fb: Form) -> String {
+    let mut out = String::new();
+    if a.has_enum() || b.is_some_and(|b| b.has_enum()) {
+        out.push_str("enum E { A, B };\n");
+    }
+    let mut counter = 0;
+    let (na, _) = declare(a, &mut out, &mut counter, Inh::FLAT, 0);
+    out.push_str(&fa.tail(&na, "1"));
+    let nb = match b {
+        Some(b) => declare(b, &mut out, &mut counter, Inh::FLAT, 0).0,
+        None => na,
+    };
+    out.push_str(&fb.tail(&nb, "2"));
     out
 }
 
@@ -573,8 +880,9 @@ fn validate_e2e(src: &str, cfg: Cfg) -> Result<Verdict, PanicInfo> {
 
 /// per-run facts established before the enumeration
 pub struct Env {
-    /// forms for which none of three certainly mismatching structs is rejected
-    not_validated: [bool; 10],
+    pub forms: Vec<Form>,
+    /// by `Form::index`: none of three certainly mismatching structs is rejected in this form
+    not_validated: Vec<bool>,
 }
 
 impl Env {
@@ -582,47 +890,76 @@ impl Env {
         // three structs that mismatch for three different reasons (vec3 size, tail padding, vector alignment). A form
         // counts as not validated when the checker accepts all of them there although it rejects one in another form
         let canaries = ["{float3}", "{float2,float}", "{half,float2}"];
-        let mut rejects = [false; 10];
-        for f in FORMS {
-            rejects[f.index()] = canaries.iter().any(|c| matches!(validate_direct(&render(&parse_ty(c).unwrap(), f)), Ok(Verdict::Mismatch { .. })));
+        let forms = all_forms();
+        let mut rejects = vec![false; SITES.len() * USES.len()];
+        for f in &forms {
+            rejects[f.index()] =
+                canaries.iter().any(|c| matches!(validate_direct(&render(&parse_ty(c).unwrap(), *f, Inh::FLAT)), Ok(Verdict::Mismatch { .. })));
         }
         let any = rejects.iter().any(|r| *r);
-        let mut not_validated = [false; 10];
-        for f in FORMS {
+        let mut not_validated = vec![false; rejects.len()];
+        for f in &forms {
             not_validated[f.index()] = any && !rejects[f.index()];
         }
-        Env { not_validated }
+        Env { forms, not_validated }
+    }
+    fn is_not_validated(&self, f: Form) -> bool {
+        self.not_validated[f.index()]
+    }
+    /// the name under which a form that is not validated is reported: the use alone when the use is not validated even
+    /// when written plainly (one root cause), the use and the site otherwise
+    fn not_validated_name(&self, f: Form) -> String {
+        if self.not_validated[Form { use_: f.use_, site: Site::Plain }.index()] { f.use_.name().to_string() } else { f.name() }
     }
 }
 
-fn replay_body(ty: &Ty, form: Form, e2e: &[Cfg]) -> String {
+fn replay_body(ty: &Ty, form: Form, inh: Inh, e2e: &[Cfg]) -> String {
     format!(
-        "kind: case\nform: {}\ntype: {}\ne2e: {}\n",
+        "kind: case\nform: {}\ntype: {}\ninherit: {}\ne2e: {}\n",
         form.name(),
         ty.expr(),
+        inh.spec(),
         e2e.iter().map(|c| c.name()).collect::<Vec<_>>().join(",")
     )
 }
 
 /// violations are ranked by this instead of the enumeration index, so that the recorded representative of a
 /// signature is the simplest struct (fewest fields, shortest spelling) over all sub-spaces
-fn complexity(ty: &Ty, form: Form) -> u64 {
+fn complexity(ty: &Ty, form: Form, inh: Inh) -> u64 {
     let mut sh = Vec::new();
     shape(ty, String::new(), usize::MAX, 0, false, &mut sh);
-    sh.len() as u64 * 100_000 + ty.expr().len() as u64 * 100 + form.index() as u64
+    let chain = (inh.top.count_ones() + inh.inner.count_ones()) as u64;
+    (sh.len() as u64 * 100_000 + ty.expr().len() as u64 * 100) * 1_000_000 + chain * 100_000 + (inh.top as u64 + inh.inner as u64) * 200 + form.index() as u64
 }
 
-pub fn check_case(ty: &Ty, form: Form, e2e: &[Cfg], env: &Env, acc: &mut Acc) {
+/// the declared source of a case, for violation details
+fn declared(ty: &Ty, inh: Inh) -> String {
+    if !inh.effective(ty, 0) {
+        return String::new();
+    }
+    let mut out = String::new();
+    let mut counter = 0;
+    declare(ty, &mut out, &mut counter, inh, 0);
+    format!(" declared with inheritance as `{}` (memory order: base members first)", out.split_whitespace().collect::<Vec<_>>().join(" "))
+}
+
+pub fn check_case(ty: &Ty, form: Form, inh: Inh, e2e: &[Cfg], env: &Env, acc: &mut Acc) {
     let enumeration_index = acc.cur_index;
-    check_case_inner(ty, form, e2e, env, acc);
+    check_case_inner(ty, form, inh, e2e, env, acc);
     acc.cur_index = enumeration_index;
 }
 
-fn check_case_inner(ty: &Ty, form: Form, e2e: &[Cfg], env: &Env, acc: &mut Acc) {
+fn check_case_inner(ty: &Ty, form: Form, inh: Inh, e2e: &[Cfg], env: &Env, acc: &mut Acc) {
     acc.evals += 1;
     // rank of this case among the violations of one signature (restored by check_case)
-    acc.cur_index = complexity(ty, form);
-    let src = render(ty, form);
+    acc.cur_index = complexity(ty, form, inh);
+    let src = render(ty, form, inh);
+    let derived = inh.effective(ty, 0);
+    if derived {
+        acc.count("cases_with_a_derived_struct");
+    }
+    // the verdict for the same member list declared flat; only computed to classify a violation of a derived case
+    let flat_verdict = || validate_direct(&render(ty, form, Inh::FLAT)).ok();
     let show = std::env::var("VERIF_C19_SHOW").is_ok();
     if show {
         println!("{}", src);
@@ -633,7 +970,7 @@ fn check_case_inner(ty: &Ty, form: Form, e2e: &[Cfg], env: &Env, acc: &mut Acc) 
             acc.violation(Violation {
                 signature: p.signature(),
                 detail: format!("layout validation of {} as {} panicked: {}", ty.expr(), form.name(), p.message),
-                replay: replay_body(ty, form, e2e),
+                replay: replay_body(ty, form, inh, e2e),
             });
             return;
         }
@@ -645,7 +982,7 @@ fn check_case_inner(ty: &Ty, form: Form, e2e: &[Cfg], env: &Env, acc: &mut Acc) 
         acc.violation(Violation {
             signature: "harness|generated-program-rejected".into(),
             detail: format!("generated program for {} as {} does not reach the layout checker: {}", ty.expr(), form.name(), one_line(msg, 300)),
-            replay: replay_body(ty, form, e2e),
+            replay: replay_body(ty, form, inh, e2e),
         });
         return;
     }
@@ -677,11 +1014,14 @@ fn check_case_inner(ty: &Ty, form: Form, e2e: &[Cfg], env: &Env, acc: &mut Acc) 
                 match diff {
                     None => {
                         acc.count("accepted_and_layouts_agree");
-                        acc.outcome(&("accept", offs(&h), h[0].size));
+                        acc.outcome(&("accept", derived, offs(&h), h[0].size));
                     }
                     Some((class, what)) => {
-                        let signature = if env.not_validated[form.index()] {
-                            format!("layout|accepted|form-not-validated|{}", form.name())
+                        let signature = if env.is_not_validated(form) {
+                            format!("layout|accepted|form-not-validated|{}", env.not_validated_name(form))
+                        } else if derived && !matches!(flat_verdict(), Some(Verdict::Accept)) {
+                            // the same members declared flat are not accepted: specific to struct inheritance
+                            "layout|accepted|derived-struct".to_string()
                         } else {
                             format!("layout|accepted|{}", class)
                         };
@@ -710,15 +1050,16 @@ fn check_case_inner(ty: &Ty, form: Form, e2e: &[Cfg], env: &Env, acc: &mut Acc) 
                                 acc.violation(Violation {
                                     signature,
                                     detail: format!(
-                                        "struct {} used as {}: validation accepted and compile() for {} succeeded, but the HLSL layout is {} and Metal layout is {}; {}",
+                                        "struct {}{} used as {}: validation accepted and compile() for {} succeeded, but the HLSL layout is {} and Metal layout is {}; {}",
                                         ty.expr(),
+                                        declared(ty, inh),
                                         form.name(),
                                         cfg.name(),
                                         describe(&h, &sh),
                                         describe(&m, &sh),
                                         what
                                     ),
-                                    replay: replay_body(ty, form, e2e),
+                                    replay: replay_body(ty, form, inh, e2e),
                                 });
                             }
                         }
@@ -743,11 +1084,17 @@ fn check_case_inner(ty: &Ty, form: Form, e2e: &[Cfg], env: &Env, acc: &mut Acc) 
                 for (which, got, want, lay) in [("hlsl", *hs, h[0].size, &h), ("metal", *ms, m[0].size, &m)] {
                     if got != want {
                         ok = false;
+                        let specific = derived && flat_verdict().as_ref() != Some(&v);
                         acc.violation(Violation {
-                            signature: format!("layout|rejected|reported-size-wrong|{}", which),
+                            signature: if specific {
+                                format!("layout|rejected|reported-size-wrong|derived-struct|{}", which)
+                            } else {
+                                format!("layout|rejected|reported-size-wrong|{}", which)
+                            },
                             detail: format!(
-                                "struct {} used as {}: rejected with \"size={} align={} on HLSL but size={} align={} on Metal\" but the true {} layout is {}",
+                                "struct {}{} used as {}: rejected with \"size={} align={} on HLSL but size={} align={} on Metal\" but the true {} layout is {}",
                                 ty.expr(),
+                                declared(ty, inh),
                                 form.name(),
                                 hs,
                                 ha,
@@ -756,12 +1103,12 @@ fn check_case_inner(ty: &Ty, form: Form, e2e: &[Cfg], env: &Env, acc: &mut Acc) 
                                 which,
                                 describe(lay, &sh)
                             ),
-                            replay: replay_body(ty, form, e2e),
+                            replay: replay_body(ty, form, inh, e2e),
                         });
                     }
                 }
                 if ok {
-                    acc.outcome(&("reject", offs(&h), offs(&m), h[0].size, m[0].size));
+                    acc.outcome(&("reject", derived, offs(&h), offs(&m), h[0].size, m[0].size));
                 }
             }
             Verdict::Unknown => acc.count("known_layout_type_rejected_as_unknown(not_demanded)"),
@@ -776,7 +1123,7 @@ fn check_case_inner(ty: &Ty, form: Form, e2e: &[Cfg], env: &Env, acc: &mut Acc) 
             Err(p) => acc.violation(Violation {
                 signature: p.signature(),
                 detail: format!("compile() of {} as {} for {} panicked: {}", ty.expr(), form.name(), cfg.name(), p.message),
-                replay: replay_body(ty, form, e2e),
+                replay: replay_body(ty, form, inh, e2e),
             }),
             Ok(ve) => {
                 if show {
@@ -805,11 +1152,155 @@ fn check_case_inner(ty: &Ty, form: Form, e2e: &[Cfg], env: &Env, acc: &mut Acc) 
                     acc.violation(Violation {
                         signature: "harness|e2e-verdict-differs".into(),
                         detail: format!("{} as {}: check_layout called directly says {:?}, compile() for {} says {:?}", ty.expr(), form.name(), v, cfg.name(), ve),
-                        replay: replay_body(ty, form, e2e),
+                        replay: replay_body(ty, form, inh, e2e),
                     });
                 }
             }
         }
+    }
+}
+
+// ---------------------------------------------------------------------------------------------
+// two uses in one program: the validation must look at every used struct, whatever else is used before or after it
+
+fn pair_replay(a: &Ty, fa: Form, b: Option<&Ty>, fb: Form) -> String {
+    format!(
+        "kind: pair\nformA: {}\ntypeA: {}\nformB: {}\ntypeB: {}\n",
+        fa.name(),
+        a.expr(),
+        fb.name(),
+        b.map(|b| b.expr()).unwrap_or_else(|| "same".to_string())
+    )
+}
+
+struct RefLayout {
+    hsize: u32,
+    msize: u32,
+    text: String,
+    diff: Option<(String, String)>,
+}
+
+fn ref_layout(ty: &Ty) -> RefLayout {
+    let mut h = Vec::new();
+    let mut m = Vec::new();
+    hlsl_rules::place(ty, 0, &mut h);
+    metal_rules::place(ty, 0, &mut m);
+    let mut sh = Vec::new();
+    shape(ty, String::new(), usize::MAX, 0, false, &mut sh);
+    let diff = compare_layouts(&h, &m, &sh);
+    RefLayout { hsize: h[0].size, msize: m[0].size, text: format!("HLSL {} / Metal {}", describe(&h, &sh), describe(&m, &sh)), diff }
+}
+
+pub fn check_pair(a: &Ty, fa: Form, b: Option<&Ty>, fb: Form, env: &Env, acc: &mut Acc) {
+    let enumeration_index = acc.cur_index;
+    check_pair_inner(a, fa, b, fb, env, acc);
+    acc.cur_index = enumeration_index;
+}
+
+fn check_pair_inner(a: &Ty, fa: Form, b: Option<&Ty>, fb: Form, env: &Env, acc: &mut Acc) {
+    acc.evals += 1;
+    acc.cur_index = complexity(a, fa, Inh::FLAT) + complexity(b.unwrap_or(a), fb, Inh::FLAT);
+    assert!(a.known() && b.is_none_or(|b| b.known()));
+    let src = render_pair(a, fa, b, fb);
+    if std::env::var("VERIF_C19_SHOW").is_ok() {
+        println!("{}", src);
+    }
+    let what = format!(
+        "{} used as {} and then {} used as {}",
+        a.expr(),
+        fa.name(),
+        b.map(|b| b.expr()).unwrap_or_else(|| "the same struct".to_string()),
+        fb.name()
+    );
+    let v = match validate_direct(&src) {
+        Ok(v) => v,
+        Err(p) => {
+            acc.violation(Violation {
+                signature: p.signature(),
+                detail: format!("layout validation of {} panicked: {}", what, p.message),
+                replay: pair_replay(a, fa, b, fb),
+            });
+            return;
+        }
+    };
+    if let Verdict::Other(msg) = &v {
+        acc.violation(Violation {
+            signature: "harness|generated-program-rejected".into(),
+            detail: format!("generated program for {} does not reach the layout checker: {}", what, one_line(msg, 300)),
+            replay: pair_replay(a, fa, b, fb),
+        });
+        return;
+    }
+    if env.is_not_validated(fa) || env.is_not_validated(fb) {
+        // reported by the single-use spaces
+        acc.count("two_uses_skipped(a_form_is_not_validated_at_all)");
+        return;
+    }
+    let la = ref_layout(a);
+    let lb = b.map(ref_layout);
+    match &v {
+        Verdict::Accept => {
+            let bad = if la.diff.is_some() {
+                Some((if b.is_some() { "first-struct" } else { "same-struct" }, &la))
+            } else {
+                match &lb {
+                    Some(l) if l.diff.is_some() => Some(("second-struct", l)),
+                    _ => None,
+                }
+            };
+            match bad {
+                None => {
+                    acc.count("two_uses_accepted_and_both_layouts_agree");
+                    acc.outcome(&("pair-accept", la.hsize, lb.as_ref().map(|l| l.hsize)));
+                }
+                Some((which, l)) => {
+                    let compiled = [Cfg::Dx, Cfg::Msl, Cfg::VkBa].into_iter().find(|cfg| matches!(validate_e2e(&src, *cfg), Ok(Verdict::Accept)));
+                    match compiled {
+                        None => acc.count("accepted_inconsistent_but_no_target_compiles"),
+                        Some(cfg) => acc.violation(Violation {
+                            signature: format!("layout|accepted|two-uses|{}-not-validated", which),
+                            detail: format!(
+                                "{}: validation accepted and compile() for {} succeeded, but the {} is laid out as {}; {}",
+                                what,
+                                cfg.name(),
+                                which,
+                                l.text,
+                                l.diff.as_ref().unwrap().1
+                            ),
+                            replay: pair_replay(a, fa, b, fb),
+                        }),
+                    }
+                }
+            }
+        }
+        Verdict::Mismatch { hs, ha, ms, ma } => {
+            acc.count("two_uses_rejected");
+            if la.diff.is_none() && lb.as_ref().is_none_or(|l| l.diff.is_none()) {
+                acc.count("rejected_although_layouts_agree(not_demanded)");
+            }
+            // the message does not say which struct it is about: the sizes must be the true sizes of one of the two
+            let hit = std::iter::once(&la).chain(lb.iter()).any(|l| l.hsize == *hs && l.msize == *ms);
+            if hit {
+                acc.outcome(&("pair-reject", hs, ms, la.hsize, la.msize, lb.as_ref().map(|l| (l.hsize, l.msize))));
+            } else {
+                acc.violation(Violation {
+                    signature: "layout|rejected|reported-size-wrong|two-uses".into(),
+                    detail: format!(
+                        "{}: rejected with \"size={} align={} on HLSL but size={} align={} on Metal\" but the true layouts are {}{}",
+                        what,
+                        hs,
+                        ha,
+                        ms,
+                        ma,
+                        la.text,
+                        lb.as_ref().map(|l| format!(" and {}", l.text)).unwrap_or_default()
+                    ),
+                    replay: pair_replay(a, fa, b, fb),
+                });
+            }
+        }
+        Verdict::Unknown => acc.count("known_layout_type_rejected_as_unknown(not_demanded)"),
+        Verdict::Other(_) => unreachable!(),
     }
 }
 
@@ -955,25 +1446,37 @@ fn unknown_space() -> Vec<Ty> {
 
 // ---------------------------------------------------------------------------------------------
 
-fn run_space<G>(ctx: &Ctx, rep: &mut Report, env: &Env, name: &str, total: u64, e2e: &[Cfg], all_forms: bool, get: G)
+/// `inhs` x types (x `forms` when `all_forms`; otherwise one of all forms per case, chosen by index). Cases whose
+/// inheritance masks do not fit the type (`Inh::canonical`) are not cases at all.
+#[allow(clippy::too_many_arguments)]
+fn run_space<G>(ctx: &Ctx, rep: &mut Report, env: &Env, name: &str, total: u64, e2e: &[Cfg], forms: &[Form], all_forms: bool, inhs: &[Inh], get: G)
 where
     G: Fn(u64) -> Option<Ty> + Sync,
 {
-    let nf = FORMS.len() as u64;
-    let n = if all_forms { total * nf } else { total };
+    let nf = forms.len() as u64;
+    let ni = inhs.len() as u64;
+    let n = if all_forms { total * ni * nf } else { total * ni };
     let stride = (n / 5).max(1) | 1;
     let r = run_par(ctx, n, 256, |idx, acc| {
-        let (ti, form) = if all_forms { (idx / nf, FORMS[(idx % nf) as usize]) } else { (idx, FORMS[(idx % nf) as usize]) };
+        let (rest, form) = if all_forms { (idx / nf, forms[(idx % nf) as usize]) } else { (idx, forms[(idx % nf) as usize]) };
+        let (ti, inh) = (rest / ni, inhs[(rest % ni) as usize]);
         let ty = match get(ti) {
             Some(t) => t,
             None => return,
         };
-        check_case(&ty, form, e2e, env, acc);
+        if !inh.canonical(&ty) {
+            return;
+        }
+        check_case(&ty, form, inh, e2e, env, acc);
         if idx % stride == 0 {
-            acc.sample(obj(vec![("space", name.into()), ("type", ty.expr().into()), ("form", form.name().into())]));
+            acc.sample(obj(vec![("space", name.into()), ("type", ty.expr().into()), ("inherit", inh.spec().into()), ("form", form.name().into())]));
         }
     });
     rep.absorb(name, r);
+}
+
+fn top_masks(max_members: usize) -> Vec<Inh> {
+    (1..(1u32 << max_members)).map(|m| Inh { top: m as u8, inner: 0 }).collect()
 }
 
 pub fn run(ctx: &Ctx) -> i32 {
@@ -982,11 +1485,11 @@ pub fn run(ctx: &Ctx) -> i32 {
     let env = Env::probe();
     rep.cov(
         "forms_validated_by_the_checker(a mismatching canary struct is rejected)",
-        Json::Arr(FORMS.iter().filter(|f| !env.not_validated[f.index()]).map(|f| f.name().into()).collect()),
+        Json::Arr(env.forms.iter().filter(|f| !env.is_not_validated(**f)).map(|f| f.name().into()).collect()),
     );
     rep.cov(
         "forms_not_validated",
-        Json::Arr(FORMS.iter().filter(|f| env.not_validated[f.index()]).map(|f| f.name().into()).collect()),
+        Json::Arr(env.forms.iter().filter(|f| env.is_not_validated(**f)).map(|f| f.name().into()).collect()),
     );
 
     // informational only: uses of a structured buffer that are outside the enumerated space (the property text
@@ -996,8 +1499,6 @@ pub fn run(ctx: &Ctx) -> i32 {
         ("array of buffers: StructuredBuffer<S> g[2]", "StructuredBuffer<S> g_b[2] : register(t0);\n"),
         ("function parameter: void f(StructuredBuffer<S> b)", "float f(StructuredBuffer<S> b) { return b[0].b; }\n"),
         ("struct member: struct T { StructuredBuffer<S> b; }", "struct T { StructuredBuffer<S> b; };\n"),
-        ("typed load with status: Load<S>(0, status)", "ByteAddressBuffer g_b : register(t0);\nvoid f() { uint st; S s = g_b.Load<S>(0, st); }\n"),
-        ("typed load inside a function template", "template<typename T> T ld(ByteAddressBuffer b) { return b.Load<T>(0); }\nByteAddressBuffer g_b : register(t0);\nvoid f() { S s = ld<S>(g_b); }\n"),
     ];
     let mut outside_report = Vec::new();
     for (what, tail) in outside {
@@ -1024,47 +1525,52 @@ pub fn run(ctx: &Ctx) -> i32 {
     let all4 = [Cfg::Dx, Cfg::Vk, Cfg::VkBa, Cfg::Msl];
     let two = [Cfg::Dx, Cfg::Msl];
     let none: [Cfg; 0] = [];
+    let af = &env.forms[..];
+    let plain = &env.forms[..PLAIN_FORMS];
+    assert!(plain.iter().all(|f| f.site == Site::Plain) && env.forms[PLAIN_FORMS..].iter().all(|f| f.site != Site::Plain));
+    let flat = &[Inh::FLAT][..];
+    rep.cov("forms(use x site)", Json::Num(af.len() as f64));
 
     // G: every 1-2-member struct over all 21 leaves x every buffer form, end to end on every target configuration
-    run_space(ctx, &mut rep, &env, "forms_x_structs_1to2_members_e2e", inner462.len() as u64, &all4, true, |i| Some(inner462[i as usize].clone()));
+    run_space(ctx, &mut rep, &env, "forms_x_structs_1to2_members_e2e", inner462.len() as u64, &all4, plain, true, flat, |i| Some(inner462[i as usize].clone()));
 
     // A: all structs with 1-3 members over the 21 leaves
     let a = Multi { alpha: l21.clone(), min_n: 1, max_n: 3 };
-    run_space(ctx, &mut rep, &env, "flat_1to3_members_21_leaves", a.total(), ctx.pick(&none[..], &two[..]), false, |i| Some(a.get(i)));
+    run_space(ctx, &mut rep, &env, "flat_1to3_members_21_leaves", a.total(), ctx.pick(&none[..], &two[..]), af, false, flat, |i| Some(a.get(i)));
 
     // B: 4 members over the 12 (size, alignment) classes
     let b = Multi { alpha: c12.clone(), min_n: 4, max_n: 4 };
-    run_space(ctx, &mut rep, &env, "flat_4_members_12_classes", b.total(), &none, false, |i| Some(b.get(i)));
+    run_space(ctx, &mut rep, &env, "flat_4_members_12_classes", b.total(), &none, af, false, flat, |i| Some(b.get(i)));
 
     // C: 5 and 6 members over smaller class alphabets
     let c5 = Multi { alpha: ctx.pick(a6.clone(), c12.clone()), min_n: 5, max_n: 5 };
-    run_space(ctx, &mut rep, &env, "flat_5_members", c5.total(), &none, false, |i| Some(c5.get(i)));
+    run_space(ctx, &mut rep, &env, "flat_5_members", c5.total(), &none, af, false, flat, |i| Some(c5.get(i)));
     let c6 = Multi { alpha: ctx.pick(a5.clone(), a8.clone()), min_n: 6, max_n: 6 };
-    run_space(ctx, &mut rep, &env, "flat_6_members", c6.total(), &none, false, |i| Some(c6.get(i)));
+    run_space(ctx, &mut rep, &env, "flat_6_members", c6.total(), &none, af, false, flat, |i| Some(c6.get(i)));
 
     // D: array members (length 1-4) of every leaf and of 1-2-member structs, in every position of a struct with <= 3 members
     let d1 = OneSpecial { specials: arrays_of(&l21), fillers: ctx.pick(a8.clone(), c12.clone()), max_n: 3 };
-    run_space(ctx, &mut rep, &env, "array_of_leaf_member", d1.total(), &none, false, |i| Some(d1.get(i)));
+    run_space(ctx, &mut rep, &env, "array_of_leaf_member", d1.total(), &none, af, false, flat, |i| Some(d1.get(i)));
     let d2 = OneSpecial { specials: arrays_of(ctx.pick(&inner42, &inner156)), fillers: ctx.pick(a8.clone(), c12.clone()), max_n: 3 };
-    run_space(ctx, &mut rep, &env, "array_of_struct_member", d2.total(), &none, false, |i| Some(d2.get(i)));
+    run_space(ctx, &mut rep, &env, "array_of_struct_member", d2.total(), &none, af, false, flat, |i| Some(d2.get(i)));
     let d3 = OneSpecial { specials: arrays_of(&inner462), fillers: l21.clone(), max_n: ctx.pick(1, 2) };
-    run_space(ctx, &mut rep, &env, "array_of_struct_member_all_leaves", d3.total(), &none, false, |i| Some(d3.get(i)));
+    run_space(ctx, &mut rep, &env, "array_of_struct_member_all_leaves", d3.total(), &none, af, false, flat, |i| Some(d3.get(i)));
 
     // E: nesting depth 2
     let e1 = OneSpecial { specials: inner462.clone(), fillers: l21.clone(), max_n: 2 };
-    run_space(ctx, &mut rep, &env, "nested2_all_leaves", e1.total(), ctx.pick(&none[..], &two[..]), false, |i| Some(e1.get(i)));
+    run_space(ctx, &mut rep, &env, "nested2_all_leaves", e1.total(), ctx.pick(&none[..], &two[..]), af, false, flat, |i| Some(e1.get(i)));
     // one inner struct (all 156 over the 12 classes) in every position of an outer struct with <= 3 members
     let e2 = OneSpecial { specials: inner156.clone(), fillers: ctx.pick(a8.clone(), c12.clone()), max_n: 3 };
-    run_space(ctx, &mut rep, &env, "nested2_one_inner_struct", e2.total(), &none, false, |i| Some(e2.get(i)));
+    run_space(ctx, &mut rep, &env, "nested2_one_inner_struct", e2.total(), &none, af, false, flat, |i| Some(e2.get(i)));
     if ctx.quick() {
         let e3 = Multi { alpha: inner42.clone(), min_n: 2, max_n: 2 };
-        run_space(ctx, &mut rep, &env, "nested2_two_inner_structs", e3.total(), &none, false, |i| Some(e3.get(i)));
+        run_space(ctx, &mut rep, &env, "nested2_two_inner_structs", e3.total(), &none, af, false, flat, |i| Some(e3.get(i)));
     } else {
         // every member of an outer struct with <= 3 members is a leaf class or an inner struct (inner over 8 classes)
         let mut alpha = c12.clone();
         alpha.extend(inner72.iter().cloned());
         let e3 = Multi { alpha, min_n: 1, max_n: 3 };
-        run_space(ctx, &mut rep, &env, "nested2_every_position", e3.total(), &none, false, |i| {
+        run_space(ctx, &mut rep, &env, "nested2_every_position", e3.total(), &none, af, false, flat, |i| {
             let t = e3.get(i);
             if t.has_struct_member() { Some(t) } else { None }
         });
@@ -1074,19 +1580,103 @@ pub fn run(ctx: &Ctx) -> i32 {
     let (fi, ff) = if ctx.quick() { (inner42.clone(), a6.clone()) } else { (inner156.clone(), a8.clone()) };
     let mids = OneSpecial { specials: fi, fillers: ff.clone(), max_n: 2 }.all();
     let f = OneSpecial { specials: mids, fillers: ctx.pick(a4.clone(), ff), max_n: ctx.pick(2, 3) };
-    run_space(ctx, &mut rep, &env, "nested3", f.total(), &none, false, |i| Some(f.get(i)));
+    run_space(ctx, &mut rep, &env, "nested3", f.total(), &none, af, false, flat, |i| Some(f.get(i)));
     // arrays inside the nested levels
     let g_in = OneSpecial { specials: arrays_of(&a6), fillers: a6.clone(), max_n: 2 }.all();
     let mut g_sp = g_in.clone();
     g_sp.extend(arrays_of(&g_in[..ctx.pick(26, g_in.len())]));
     let g = OneSpecial { specials: g_sp, fillers: a6.clone(), max_n: 2 };
-    run_space(ctx, &mut rep, &env, "nested_struct_with_array_member", g.total(), &none, false, |i| Some(g.get(i)));
+    run_space(ctx, &mut rep, &env, "nested_struct_with_array_member", g.total(), &none, af, false, flat, |i| Some(g.get(i)));
+
+
+    // G2: every form (use x site) x 1-2-member structs, end to end
+    let g2 = ctx.pick(&inner42, &inner156);
+    run_space(ctx, &mut rep, &env, "all_forms_x_structs_1to2_members_e2e", g2.len() as u64, &two, af, true, flat, |i| Some(g2[i as usize].clone()));
+
+    // I: struct inheritance. Every way of cutting the member list of the element struct into a chain of derived structs
+    // (a base after any subset of the members, the most derived body may be empty)
+    let i_two = Multi { alpha: l21.clone(), min_n: 2, max_n: 2 };
+    run_space(ctx, &mut rep, &env, "derived_2_members_21_leaves", i_two.total(), ctx.pick(&none[..], &two[..]), af, false, &top_masks(2), |i| Some(i_two.get(i)));
+    let i_three = Multi { alpha: ctx.pick(c12.clone(), l21.clone()), min_n: 3, max_n: 3 };
+    run_space(ctx, &mut rep, &env, "derived_3_members", i_three.total(), &none, af, false, &top_masks(3), |i| Some(i_three.get(i)));
+    let i_four = Multi { alpha: ctx.pick(a5.clone(), a8.clone()), min_n: 4, max_n: 4 };
+    run_space(ctx, &mut rep, &env, "derived_4_members", i_four.total(), &none, af, false, &top_masks(4), |i| Some(i_four.get(i)));
+    // 5 members: one base after every member (thorough: every chain)
+    let i_five = Multi { alpha: ctx.pick(a4.clone(), a5.clone()), min_n: 5, max_n: 5 };
+    let single_cuts: Vec<Inh> = (0..5).map(|b| Inh { top: 1 << b, inner: 0 }).collect();
+    let m5 = top_masks(5);
+    run_space(ctx, &mut rep, &env, "derived_5_members", i_five.total(), &none, af, false, ctx.pick(&single_cuts[..], &m5[..]), |i| Some(i_five.get(i)));
+    // every form x derived 2-member structs
+    let i_forms = Multi { alpha: ctx.pick(a6.clone(), c12.clone()), min_n: 2, max_n: 2 };
+    let first_cut = [Inh { top: 1, inner: 0 }];
+    let m2 = top_masks(2);
+    run_space(ctx, &mut rep, &env, "all_forms_x_derived_2_members_e2e", i_forms.total(), &two, af, true, ctx.pick(&first_cut[..], &m2[..]), |i| Some(i_forms.get(i)));
+    // derived structs as nested struct members and as array elements, inside flat and derived outer structs
+    let i_inner = Multi { alpha: ctx.pick(a6.clone(), c12.clone()), min_n: 2, max_n: 2 }.all();
+    let mut nest_inhs = Vec::new();
+    for inner in 1..4u8 {
+        for top in 0..4u8 {
+            nest_inhs.push(Inh { top, inner });
+        }
+    }
+    let i_nest = OneSpecial { specials: i_inner.clone(), fillers: a8.clone(), max_n: 2 };
+    run_space(ctx, &mut rep, &env, "derived_inner_struct", i_nest.total(), &none, af, false, &nest_inhs, |i| Some(i_nest.get(i)));
+    let arr_inhs = [Inh { top: 0, inner: 1 }, Inh { top: 0, inner: 2 }, Inh { top: 0, inner: 3 }];
+    let i_arr = OneSpecial { specials: arrays_of(&i_inner), fillers: a6.clone(), max_n: 2 };
+    run_space(ctx, &mut rep, &env, "array_of_derived_struct", i_arr.total(), &none, af, false, ctx.pick(&arr_inhs[..], &nest_inhs[..]), |i| Some(i_arr.get(i)));
+    // depth 3 (the quick tier's outer { mid { inner } } space): nested structs derived, outer struct flat or derived
+    let f3 = OneSpecial { specials: OneSpecial { specials: inner42.clone(), fillers: a6.clone(), max_n: 2 }.all(), fillers: a4.clone(), max_n: 2 };
+    let depth3_inhs = [Inh { top: 0, inner: 1 }, Inh { top: 1, inner: 1 }];
+    run_space(ctx, &mut rep, &env, "derived_nested3", f3.total(), &none, af, false, ctx.pick(&depth3_inhs[..], &nest_inhs[..]), |i| Some(f3.get(i)));
+
+    // J: two uses in one program (a consistent struct next to an inconsistent one in either order, and one struct used twice)
+    {
+        let good = leaf_names(&["float"]).into_iter().map(|t| Ty::Struct(vec![t])).chain([parse_ty("{float2,float,float}").unwrap()]).collect::<Vec<_>>();
+        let bad = ["{float3}", "{float2,float}", "{half,float2}"].iter().map(|c| parse_ty(c).unwrap()).collect::<Vec<_>>();
+        // (first struct, second struct or the same again)
+        let mut combos: Vec<(Ty, Option<Ty>)> = Vec::new();
+        for g in &good {
+            for b in &bad {
+                combos.push((g.clone(), Some(b.clone())));
+                combos.push((b.clone(), Some(g.clone())));
+            }
+        }
+        for t in good.iter().chain(bad.iter()) {
+            combos.push((t.clone(), None));
+        }
+        combos.push((bad[0].clone(), Some(bad[1].clone())));
+        combos.push((good[0].clone(), Some(good[1].clone())));
+        let np = plain.len() as u64;
+        let nc = combos.len() as u64;
+        let r = run_par(ctx, np * np * nc, 64, |idx, acc| {
+            let (fa, fb, c) = (plain[(idx % np) as usize], plain[(idx / np % np) as usize], &combos[(idx / np / np) as usize]);
+            check_pair(&c.0, fa, c.1.as_ref(), fb, &env, acc);
+        });
+        rep.absorb("two_uses_plain_forms", r);
+        // every form next to every plainly written use, in both orders, one consistent and one inconsistent struct
+        let na = af.len() as u64;
+        let r = run_par(ctx, na * np * 4, 64, |idx, acc| {
+            let (fx, fp, k) = (af[(idx % na) as usize], plain[(idx / na % np) as usize], idx / na / np);
+            if fx.site == Site::Plain {
+                return;
+            }
+            let (g, b) = (&good[1], &bad[1]);
+            match k {
+                0 => check_pair(g, fx, Some(b), fp, &env, acc),
+                1 => check_pair(b, fx, Some(g), fp, &env, acc),
+                2 => check_pair(g, fp, Some(b), fx, &env, acc),
+                _ => check_pair(b, fp, Some(g), fx, &env, acc),
+            }
+        });
+        rep.absorb("two_uses_every_form_with_a_plain_form", r);
+    }
 
     // H: bool / matrix members: error path only
     let u = unknown_space();
-    run_space(ctx, &mut rep, &env, "unknown_layout_members", u.len() as u64, &two, false, |i| Some(u[i as usize].clone()));
+    run_space(ctx, &mut rep, &env, "unknown_layout_members", u.len() as u64, &two, af, false, flat, |i| Some(u[i as usize].clone()));
 
     if ctx.quick() {
+        rep.caps_hit.push("quick tier, inheritance: 3 members over the 12 classes (thorough: 21 leaves), 4 members over 5 classes (thorough: 8), 5 members over 4 classes with one base after every member (thorough: 5 classes, every chain); derived nested structs over the 6-class alphabet (thorough: 12); every form x 42 structs (thorough: 156); depth-3 nesting with the nested structs cut after their first member (thorough: every cut of 2-member structs)".into());
         rep.caps_hit.push("quick tier: 5 members over 6 classes and 6 members over 5 classes (thorough: 12 and 8); depth-3 outer structs have <= 2 members (thorough: 3); the other members around an array / nested struct come from 8 classes (thorough: 12); arrays of structs and depth-3 nesting over the 6-class inner alphabet (thorough: 12-class inner structs, 8-class fillers); depth-2 nesting with one inner struct in every position + pairs (thorough adds: every member of an outer struct with <= 3 members is a leaf class or one of 72 inner structs)".into());
     }
     rep.assumptions = vec![
@@ -1096,9 +1686,11 @@ pub fn run(ctx: &Ctx) -> i32 {
         "a signature of the accepted branch is only raised when rssl::compile with validation enabled really succeeds for at least one target on the same source (checked for the first instance and for every instance that becomes the recorded representative; further instances of that signature are counted from the direct check_layout verdict, which the forms space shows to be identical to compile()'s)".into(),
         "in the rejected branch only the two sizes of the message are compared (the property says sizes); the reported alignments are compared into counters".into(),
         "beyond 3 members / inside nesting, leaves are taken from one representative per (size, alignment) class (12 classes); all 21 leaves are covered exhaustively for 1-3 members, for arrays, and for one nested struct".into(),
-        "outside the exhaustive forms space each struct is used in exactly one buffer form, chosen by index modulo 10".into(),
+        "outside the exhaustive forms spaces each struct is used in exactly one buffer form (use x site), chosen by index modulo the number of forms".into(),
+        "a derived struct `S : B` is the flat struct 'members of B, then the own members of S' with no extra padding after the base: that is what rssl's typer builds (base members are copied into the derived struct), what both exporters emit (a flat member list, never a base clause), and HLSL's rule; structs with several bases are outside the space (HLSL has no multiple inheritance)".into(),
+        "with two uses in one program the rejection message does not name the struct: its two sizes must be the true sizes of one of the two structs".into(),
         "bool and matrix members have no reference layout here; only absence of panics and the verdict counters are recorded".into(),
-        "buffer forms the checker does not look at by construction (arrays of buffers, buffers as function parameters, struct members) are outside the enumerated space".into(),
+        "uses of a structured buffer the checker does not look at by construction (arrays of structured buffers, structured buffers as function parameters or struct members) are outside the enumerated space; they are listed under uses_outside_the_enumerated_space".into(),
     ];
     finish(ctx, rep)
 }
@@ -1113,8 +1705,28 @@ pub fn replay(ctx: &Ctx, body: &str) -> i32 {
         }
         return 0;
     }
+    if body.starts_with("kind: pair") {
+        let field = |k: &str| body.lines().find_map(|l| l.strip_prefix(k)).map(|r| r.trim().to_string());
+        let fa = field("formA: ").and_then(|r| Form::from_name(&r));
+        let fb = field("formB: ").and_then(|r| Form::from_name(&r));
+        let ta = field("typeA: ").and_then(|r| parse_ty(&r));
+        let tb_text = field("typeB: ");
+        let tb = tb_text.as_deref().and_then(parse_ty);
+        return match (fa, fb, ta, tb_text.as_deref(), tb) {
+            (Some(fa), Some(fb), Some(ta), Some(text), tb) if text == "same" || tb.is_some() => {
+                let env = Env::probe();
+                check_pair(&ta, fa, tb.as_ref(), fb, &env, &mut acc);
+                finish_replay(ctx, &acc)
+            }
+            _ => {
+                eprintln!("machinery error: cannot parse replay body");
+                2
+            }
+        };
+    }
     let mut form = None;
     let mut ty = None;
+    let mut inh = Some(Inh::FLAT);
     let mut e2e = Vec::new();
     let mut kind_ok = false;
     for line in body.lines() {
@@ -1124,18 +1736,20 @@ pub fn replay(ctx: &Ctx, body: &str) -> i32 {
             form = Form::from_name(r.trim());
         } else if let Some(r) = line.strip_prefix("type: ") {
             ty = parse_ty(r.trim());
+        } else if let Some(r) = line.strip_prefix("inherit: ") {
+            inh = Inh::parse(r);
         } else if let Some(r) = line.strip_prefix("e2e: ") {
             e2e = r.split(',').filter_map(|c| Cfg::from_name(c.trim())).collect();
         }
     }
-    let (form, ty) = match (kind_ok, form, ty) {
-        (true, Some(f), Some(t)) => (f, t),
+    let (form, ty, inh) = match (kind_ok, form, ty, inh) {
+        (true, Some(f), Some(t), Some(i)) => (f, t, i),
         _ => {
             eprintln!("machinery error: cannot parse replay body");
             return 2;
         }
     };
     let env = Env::probe();
-    check_case(&ty, form, &e2e, &env, &mut acc);
+    check_case(&ty, form, inh, &e2e, &env, &mut acc);
     finish_replay(ctx, &acc)
 }
